@@ -25,7 +25,10 @@ let handle toks =
   | ["lspec"; s] ->
       let bs = bytes_of_hex s in
       Printf.sprintf "%s end=%d" (show_opt (Comp_ext.lz4_spec_decode bs)) (if Comp_ext.lz4_check_end_rules bs then 1 else 0)
-  | ["scomp"; _delta; x] -> show_res (Comp_ext.snappy_compress (bytes_of_hex x))
+  | ["scomp"; delta; x] ->
+      let bs = bytes_of_hex x in
+      let b = int_of_n (Comp_ext.snappy_bound (n_of_int (List.length bs))) + int_of_string delta in
+      show_res (Comp_ext.snappy_compress_c bs (n_of_int (max b 0)))
   | ["lcomp"; delta; x] ->
       let bs = bytes_of_hex x in
       let b = int_of_n (Comp_ext.lz4_bound (n_of_int (List.length bs))) + int_of_string delta in
